@@ -29,11 +29,12 @@ def items(tier):
         out.append({"kind": "formula", "method": "bc", "n": n, "Y": "()", "nan": "none"})
     out.append({"kind": "formula", "method": "bc", "n": 3, "Y": "()", "nan": "one"})
     out.append({"kind": "formula", "method": "bc", "n": 2, "Y": "(2,)", "nan": "none"})
-    # bca: fully symbolic replicates only at n=1 (quick) / n<=2 (thorough: nonlinear, minutes); otherwise
+    # bca: fully symbolic replicates only at n=1 (and n=3 with one NaN row, thorough); otherwise
     # concrete replicate patterns with symbolic estimate and alpha
     out.append({"kind": "formula", "method": "bca", "n": 1, "Y": "()", "nan": "none"})
     if tier == "thorough":
-        out.append({"kind": "formula", "method": "bca", "n": 2, "Y": "()", "nan": "none"})
+        # (fully symbolic bca at n=2 is cubic with a pole: z3 decided it in ~3 min in one session and not within 35 min in
+        #  another - too erratic for a registered command, outside both tiers)
         out.append({"kind": "formula", "method": "bca", "n": 3, "Y": "()", "nan": "one"})
     for pat in PATTERNS:
         out.append({"kind": "formula", "method": "bca", "n": len(PATTERNS[pat]), "Y": "()", "nan": "none", "pattern": pat})
